@@ -239,6 +239,55 @@ func pureCallee(name string) bool {
 
 // flowsToSort: the slice value v (an append result) flows, through phis and
 // further appends, into an argument of a sort.* call in the same function.
+// collectedSlicesAreSorted: every slice the loop over r writes into (element stores or appends) is
+// handed to a sort function afterwards. Returns "" if so, else what is wrong.
+func collectedSlicesAreSorted(r *ssa.Range) string {
+	body := loopBlocks(r)
+	n := 0
+	check := func(base ssa.Value) bool {
+		base = stripConv(base)
+		if ld, ok := base.(*ssa.UnOp); ok && ld.Op == token.MUL {
+			if a, ok := ld.X.(*ssa.Alloc); ok && a.Referrers() != nil {
+				// a variable (captured by the comparison closure): any load of it that is sorted outside the loop
+				for _, rr := range *a.Referrers() {
+					if l2, ok := rr.(*ssa.UnOp); ok && l2.Op == token.MUL && !body[l2.Block()] && flowsToSort(l2) {
+						return true
+					}
+				}
+				return false
+			}
+		}
+		return flowsToSort(base)
+	}
+	for b := range body {
+		for _, ins := range b.Instrs {
+			switch x := ins.(type) {
+			case *ssa.Store:
+				if ia, ok := x.Addr.(*ssa.IndexAddr); ok {
+					if a := baseAlloc(x.Addr); a != nil && (a.Comment == "varargs" || a.Comment == "complit" || a.Comment == "slicelit") {
+						continue
+					}
+					n++
+					if !check(ia.X) {
+						return "the slice " + desc(ia.X, 3) + " filled in the loop is not passed to a sort function afterwards"
+					}
+				}
+			case *ssa.Call:
+				if calleeName(&x.Call) == "builtin.append" {
+					n++
+					if !flowsToSort(x) {
+						return "the slice appended to in the loop is not passed to a sort function afterwards"
+					}
+				}
+			}
+		}
+	}
+	if n == 0 {
+		return "the loop collects nothing into a slice"
+	}
+	return ""
+}
+
 func flowsToSort(v ssa.Value) bool {
 	seen := map[ssa.Value]bool{}
 	var walk func(ssa.Value) bool
